@@ -58,13 +58,16 @@ from translate.multipitch import TIMES, EMPTY  # noqa: E402
 WANTED = [("util", ["_fast_hit_windows", "match_events"]),
           ("onset", ["f_measure"]),
           ("beat", ["f_measure"]),
-          ("segment", ["detection", "deviation"])]
+          ("segment", ["detection", "deviation"]),
+          ("tempo", ["validate", "detection"])]
 
 NATS = VEC(NAT)
 PAIRS = VEC(TUP([NAT, NAT]))
 DICT = ("dict",)
 ORAT = OPT(RAT)          # a float that may be nan (np.median of an empty array, np.nan)
 RMAT = ("ratmat",)       # a 2-D float array with the number of its columns: (rows, ncols)
+BOOLS = VEC(BOOL)
+NUMS = VEC(NUM)
 
 _mp_lean_type = SI.lean_type
 
@@ -234,7 +237,30 @@ class Body(MP.Body):
     def check_carried(self, n, env, s):
         if n in self.lists or n in self.dicts:
             return
+        if env[n][0] == BOOLS and n in self.fresh_arrays:
+            return
         MP.Body.check_carried(self, n, env, s)
+
+    def item_store(self, s, env, cont):
+        t = s.targets[0]
+        if isinstance(t.value, ast.Name) and t.value.id in env and env[t.value.id][0] == BOOLS:
+            x = t.value.id
+            if x not in self.fresh_arrays:
+                raise Unsupported("item assignment into %s, whose value may be shared with the caller" % x, s)
+            binds = []
+            i = self.expr(t.slice, env, binds)
+            v = self.expr(s.value, env, binds)
+            if i.ty != NAT or v.ty != BOOL:
+                raise Unsupported("%s[<%s>] = <%s>" % (x, show_type(i.ty), show_type(v.ty)), s)
+            self.effect_lines.add(s.lineno)
+            line = "let %s : %s ← Mir.PyEG.setItemB %s %s %s" % (ident(x), lean_type(BOOLS), ident(x), i.term, v.term)
+            return self.bind_lines(binds) + [line] + cont(dict(env))
+        return MP.Body.item_store(self, s, env, cont)
+
+    def number(self, e, node, allow_num=False):
+        if e.ty == BOOL:
+            return E("(Mir.PyEG.b2r %s)" % e.term, RAT)
+        return MP.Body.number(self, e, node, allow_num)
 
     # -- statements -------------------------------------------------------------------------------------------------
     def static_none_test(self, t):
@@ -255,6 +281,11 @@ class Body(MP.Body):
             v = self.static_none_test(s.test)
             if v is not None:
                 return self.stmts(list(s.body if v else s.orelse) + list(rest), env, k)
+        if isinstance(s, ast.If) and not s.orelse and all(isinstance(x, ast.Pass) for x in s.body):
+            b0 = []
+            self.cond(s.test, env, b0)
+            if not b0:
+                return self.stmts(list(rest), env, k)      # `if c: <only a dropped warning>` with a test that cannot raise
         if isinstance(s, ast.Raise):
             exc = s.exc
             nm = dotted(exc.func) if isinstance(exc, ast.Call) else dotted(exc) if exc is not None else None
@@ -272,6 +303,13 @@ class Body(MP.Body):
             self.argsort_of.pop(x, None)
             for kk in [a for a, b in self.argsort_of.items() if b == x]:
                 del self.argsort_of[kk]
+            if isinstance(value, ast.List) and value.elts and all(
+                    isinstance(v, ast.Constant) and type(v.value) is bool for v in value.elts):
+                env2 = dict(env)
+                env2[x] = (BOOLS, False, False)
+                self.fresh_arrays.add(x)
+                return ["let %s : %s := [%s]" % (ident(x), lean_type(BOOLS), ", ".join(
+                    "true" if v.value else "false" for v in value.elts))] + cont(env2)
             if isinstance(value, ast.List) and not value.elts and x in self.lists:
                 env2 = dict(env)
                 env2[x] = (NATS, False, False)
@@ -303,10 +341,30 @@ class Body(MP.Body):
                 raise Unsupported("`in` on (%s, %s)" % (show_type(k.ty), show_type(d.ty)), node)
             t = "(Mir.PyEG.dictHas %s %s)" % (d.term, k.term)
             return E(t if isinstance(node.ops[0], ast.In) else "(!%s)" % t, BOOL)
+        if len(node.ops) == 1 and isinstance(node.ops[0], (ast.LtE, ast.Lt)):
+            b0 = []
+            a = self.expr(node.left, env, b0)
+            if a.ty == NUM:
+                c = self.expr(node.comparators[0], env, b0)
+                if c.ty not in (NAT, INT, RAT):
+                    raise Unsupported("comparison of an np.float64 with a %s" % show_type(c.ty), node)
+                binds += b0
+                prim = "numLe" if isinstance(node.ops[0], ast.LtE) else "numLt"
+                return E("(Mir.PyEG.%s %s %s)" % (prim, a.term, coerce(c, RAT, node)), BOOL)
         return MP.Body.compare(self, node, env, binds)
 
     def binop(self, node, env, binds):
         op = node.op
+        if isinstance(op, ast.Sub) and not isinstance(node.left, ast.List) and not isinstance(node.right, ast.List):
+            b0 = []
+            c, a = self.expr(node.left, env, b0), self.expr(node.right, env, b0)
+            if a.ty == TIMES and c.ty in (NAT, INT, RAT) and not b0:
+                return E("(Mir.PyEG.rsubScalar %s %s)" % (coerce(c, RAT, node), a.term), TIMES)
+        if isinstance(op, ast.Div):
+            b0 = []
+            a, c = self.expr(node.left, env, b0), self.expr(node.right, env, b0)
+            if a.ty == TIMES and c.ty in (NAT, INT, RAT) and not b0:
+                return E("(Mir.PyEG.divVecNp %s %s)" % (a.term, coerce(c, RAT, node)), NUMS)
         if isinstance(op, (ast.Add, ast.Sub)) and not isinstance(node.left, ast.List) and not isinstance(node.right, ast.List):
             b0 = []
             a = self.expr(node.left, env, b0)
@@ -346,6 +404,11 @@ class Body(MP.Body):
             if l.ty != NAT or h.ty != NAT:
                 raise Unsupported("slice bounds of type (%s, %s)" % (show_type(l.ty), show_type(h.ty)), node)
             return E("(Mir.PyEG.sliceNat %s %s %s)" % (a.term, l.term, h.term), a.ty)
+        if isinstance(idx, ast.Constant) and type(idx.value) is int and idx.value >= 0 and isinstance(node.value, ast.Name) \
+                and node.value.id in env and env[node.value.id][0][0] == "vec":
+            a = self.expr(node.value, env, binds)
+            tmp = self.bind(binds, "Mir.PyMP.listGet %s (%d : Nat)" % (a.term, idx.value), a.ty[1], node)
+            return E(tmp, a.ty[1])
         if isinstance(idx, ast.Name) and idx.id in env and env[idx.id][0] == NATS:
             a = self.expr(node.value, env, binds)
             if a.ty != TIMES:
@@ -390,6 +453,39 @@ class Body(MP.Body):
                 self.check_extern_sig(f.id, v[2], node)
                 tmp = self.bind(binds, "%s %s" % (v[1], " ".join(e.term for e in es)), NONE, node)
                 return E(tmp, NONE)
+        if isinstance(f, ast.Name) and f.id == "validate_tempi" and mod == "tempo" and f.id not in self.locals and args:
+            self.check_validate_tempi(node)
+            t = self.expr(args[0], env, binds)
+            r = args[1] if len(args) == 2 and not node.keywords else (
+                node.keywords[0].value if len(args) == 1 and kwnames == ["reference"] else None)
+            if r is None:
+                raise Unsupported("validate_tempi(tempi, reference=...) expected", node)
+            rb = self.expr(r, env, binds)
+            if t.ty != TIMES or rb.ty != BOOL:
+                raise Unsupported("validate_tempi on (%s, %s)" % (show_type(t.ty), show_type(rb.ty)), node)
+            tmp = self.bind(binds, "Mir.PyEG.validate_tempi %s %s" % (t.term, rb.term), NONE, node)
+            return E(tmp, NONE)
+        if isinstance(f, ast.Name) and f.id == "bool" and f.id not in self.locals and f.id not in self.m.funcs \
+                and f.id not in self.m.assigned and len(args) == 1 and not node.keywords:
+            a = self.expr(args[0], env, binds)
+            if a.ty != BOOL:
+                raise Unsupported("bool() of a %s" % show_type(a.ty), node)
+            return a
+        if name == "np.abs" and len(args) == 1 and not node.keywords and not (
+                isinstance(args[0], ast.Call) and dotted(args[0].func) == "np.subtract.outer"):
+            a = self.expr(args[0], env, binds)
+            if a.ty != TIMES:
+                raise Unsupported("np.abs of a %s" % show_type(a.ty), node)
+            return E("(Mir.PyEG.absV %s)" % a.term, TIMES)
+        if name in ("np.min", "np.max") and len(args) == 1 and not node.keywords:
+            a = self.expr(args[0], env, binds)
+            if a.ty == NUMS and name == "np.min":
+                tmp = self.bind(binds, "Mir.PyEG.npMin %s" % a.term, NUM, node)
+                return E(tmp, NUM, np=True)
+            if a.ty == BOOLS:
+                tmp = self.bind(binds, "Mir.PyEG.%s %s" % ("minBools" if name == "np.min" else "maxBools", a.term), BOOL, node)
+                return E(tmp, BOOL)
+            raise Unsupported("%s of a %s" % (name, show_type(a.ty)), node)
         if name == "np.asarray" and len(args) == 1 and not node.keywords:
             a = self.expr(args[0], env, binds)
             if a.ty != TIMES:
@@ -462,6 +558,14 @@ class Body(MP.Body):
                 raise Unsupported("np.median of a %s" % show_type(a.ty), node)
             return E("(Mir.PyEG.median %s)" % a.term, ORAT)
         return MP.Body.call(self, node, env, binds)
+
+    def check_validate_tempi(self, node):
+        defs = self.m.funcs.get("validate_tempi")
+        if not defs or len(defs) != 1 or "validate_tempi" in self.m.assigned:
+            raise Unsupported("validate_tempi is not a single top-level function", node)
+        a = defs[0].args
+        if [p.arg for p in a.args] != ["tempi", "reference"] or a.vararg or a.kwarg or a.kwonlyargs:
+            raise Unsupported("the signature of validate_tempi changed", node)
 
     def pseudo(self, fn, node, env, binds):
         args = node.args
@@ -577,7 +681,7 @@ import MirModel.PyMultipitch
 import MirModel.PyEvGlue
 import MirGen.Scalars
 /-!
-  GENERATED by harness/translate/evglue.py from mir_eval/{util,onset,beat,segment}.py — do not edit.
+  GENERATED by harness/translate/evglue.py from mir_eval/{util,onset,beat,segment,tempo}.py — do not edit.
   One shallow definition per translated function (`Mir.Gen.<module>.<function>`; a `for` loop is the auxiliary
   `<function>_loop<k>`), over `Mir.PyEG`.  Regenerated from the working tree on every run of ./check C04;
   `MirProofs/Props/C04_GenGlue.lean` proves each of them equal to the hand-written model.
